@@ -190,6 +190,13 @@ pub fn check_allocation(ops: &[RegAllocOp]) -> Result<FnStats, (String, String)>
     let mut succ: Vec<Vec<usize>> = vec![vec![]; n];
     for (i, o) in ops.iter().enumerate() {
         if let Some((kind, to)) = &o.jump {
+            if kind == "call" {
+                // the callee is another function; control comes back to the next op
+                if i + 1 < n {
+                    succ[i].push(i + 1);
+                }
+                continue;
+            }
             let Some(t) = label_ix.get(to.as_str()) else {
                 return Err(("dump-inconsistent:jump-to-unknown-label".into(), format!("op {i} `{}` jumps to {to}", o.text)));
             };
@@ -382,7 +389,7 @@ fn c08_eval(tape: &[u16], pressure: bool, rep: &Report) -> Result<(), Fail> {
                         if st.spill_ops > 0 {
                             rep.class("functions-with-spills");
                         }
-                        if st.max_live >= 16 {
+                        if st.max_live >= 12 || st.spill_ops > 0 {
                             rep.nontrivial(hash64(format!("{}|{}|{}|{}", tape_hash(tape), no_trap, lname, k).as_bytes()));
                         }
                         let bucket = match st.max_live {
@@ -413,7 +420,7 @@ pub fn run_c08(ctx: &Ctx) {
          simultaneously live u64 locals) at O0 and O1, observed through a cfg hook as plain data (ops after coalescing and spilling, def/use sets, labels/jumps, chosen machine \
          registers); oracle: the harness rebuilds the CFG from labels and jumps, recomputes liveness itself and requires that no op defines a virtual register in a machine register \
          that also holds another virtual register live after the op (MOVE sources excepted), that every virtual register has exactly one machine register, and that every refill from a \
-         spill slot can only be reached by spills of the same register; non-trivial = function with >= 16 simultaneously live virtual registers; distinct by (program, variant, level, function)",
+         spill slot can only be reached by spills of the same register; non-trivial = function with >= 12 simultaneously live virtual registers after spilling, or with spill code; distinct by (program, variant, level, function)",
     );
     rep.assume("def/use sets per op are taken from the allocator's own tables (a wrong table entry is a behavioural bug for C01/C02, invisible to this invariant)");
     rep.assume("the behavioural half of the property (allocated program behaves like the virtual-register program) is exercised by C02/C07 on the same generator");
